@@ -122,7 +122,7 @@ def close(a, b, tol=1e-9):
 
 # ----------------------------------------------------------------------------- generation
 
-PALETTES = ("ties", "distinct", "float", "neg", "huge", "hard", "bigbase", "bin", "int62", "dec", "inf", "bigmix")
+PALETTES = ("ties", "distinct", "float", "neg", "huge", "hard", "bigbase", "bin", "int62", "dec", "inf", "bigmix", "hugefloat")
 
 
 def draw_cost(rng, palette, hard_value=10000):
@@ -141,6 +141,9 @@ def draw_cost(rng, palette, hard_value=10000):
     if palette == "int62":
         # integers that fit a signed 64-bit word while sums of two or three of them do not
         return rng.choice([2 ** 62 + rng.randint(0, 5), 2 ** 62 - rng.randint(0, 5), rng.randint(0, 5), 2 ** 61 + rng.randint(0, 5)])
+    if palette == "hugefloat":
+        # float tables whose entries are all whole numbers, some beyond the 64-bit integer range
+        return rng.choice([0.0, 1.0, 3.0, 1e19, float(2 ** 63), -1e19, 2.0 ** 70])
     if palette == "bigmix":
         # avoidable big penalties next to small costs: gains of about 1e12 that differ by a few units
         return rng.choice([rng.randint(0, 9), rng.randint(0, 9), 10 ** 12 + rng.randint(0, 9)])
